@@ -24,7 +24,7 @@ vars == <<ti, geo, q, phase, res, idx>>
 
 Prog(c) == IF c = P THEN geo.pp ELSE geo.cp
 Finished(c) == idx[c] > Len(Prog(c))
-CallName(c) == IF c = P THEN "put" ELSE Prog(c)[idx[c]]              \* what the driver reports: put / get / empty
+CallName(c) == IF c = P THEN (IF geo.pp[idx[c]].k = "empty" THEN "empty" ELSE "put") ELSE Prog(c)[idx[c]]              \* what the driver reports: put / get / empty
 
 TraceInit ==
   /\ ti = 1 /\ geo = [len |-> 2, start |-> 0, pp |-> <<>>, cp |-> <<>>] /\ q = <<>>
@@ -47,8 +47,9 @@ Done(c, r) == phase' = [phase EXCEPT ![c] = "done"] /\ res' = [res EXCEPT ![c] =
 LinP ==
   /\ phase[P] = "pending"
   /\ LET cur == geo.pp[idx[P]] IN
-     \/ /\ Len(q) < geo.len - 1 /\ q' = Append(q, cur.d) /\ Done(P, 1)
+     \/ /\ cur.k # "empty" /\ Len(q) < geo.len - 1 /\ q' = Append(q, cur.d) /\ Done(P, 1)
      \/ /\ Len(q) >= geo.len - 1 /\ cur.k = "put" /\ q' = q /\ Done(P, 0)       \* putchar never reports failure
+     \/ /\ cur.k = "empty" /\ q' = q /\ Done(P, IF q = <<>> THEN 1 ELSE 0)       \* the producer asks whether the ring is idle
   /\ UNCHANGED <<ti, geo, idx>>
 
 LinC ==
